@@ -45,8 +45,59 @@ def BV(w):
 class Inst:
     """script prefix (declarations), the term, free variables"""
 
-    def __init__(self, decls, term, free):
+    def __init__(self, decls, term, free, anywhere=False):
         self.decls, self.term, self.free = decls, term, free
+        # anywhere: the mutator is tried on every sub-node of the term and
+        # the value of the whole term is compared (an occurrence under a
+        # binder can only be judged in its context)
+        self.anywhere = anywhere
+
+
+def check_anywhere(rec, mname, mut, inst):
+    script = inst.decls + [['assert-term', inst.term]]
+    exprs = [build(x) for x in script]
+    smtlib.collect_information(exprs)
+    root = exprs[-1][1]
+    funs = {d[1]: ([a[0] for a in d[2]], d[4]) for d in inst.decls
+            if d[0] == 'define-fun'}
+    names = [n for n, _ in inst.free]
+    doms = [E.domain(s) for _, s in inst.free]
+    accepted = 0
+    for target in list(nodes.dfs(root)):
+        try:
+            if hasattr(mut, 'filter') and not mut.filter(target):
+                continue
+            simps = list(mut.mutations(target))
+        except Exception:  # noqa  (a failing mutator proposes nothing)
+            continue
+        for simp in simps:
+            accepted += 1
+            new = plain(nodes.substitute(root, dict(simp.substs)))
+            case = {'mutator': mname,
+                    'decls': ' '.join(sexpr(d) for d in inst.decls),
+                    'term': sexpr(inst.term), 'at': sexpr(plain(target)),
+                    'result': sexpr(new)}
+            rec.case((mname, 'anywhere', sexpr(inst.term), case['at'],
+                      case['result']), case)
+            for vals in itertools.product(*doms):
+                env = dict(zip(names, vals))
+                ctx = E.Ctx(env, funs)
+                try:
+                    v1 = E.ev(inst.term, ctx)
+                except E.EvalError:
+                    continue
+                try:
+                    v2 = E.ev(new, ctx)
+                except E.EvalError as ex:
+                    rec.violation(
+                        f'C17/native/{mname}/replacement-well-sorted', case,
+                        f'{ex} under {env}')
+                    break
+                if v1 != v2:
+                    rec.violation(f'C17/native/{mname}/same-value', case,
+                                  f'{v1} vs {v2} under {env}')
+                    break
+    return bool(accepted)
 
 
 def check_instance(rec, mname, mut, inst):
@@ -254,6 +305,26 @@ def instances(maxw):  # noqa: C901
                  ['f', ['+', 'b', 'a'], ['-', 'a']], ['f', 'k', 'a'],
                  ['g', ['=', 'a', 'b']], 'k'):
         add('InlineDefinedFuns', Inst(di + defs, call, fi))
+    # ... and bodies with binders: names of the actual arguments that are
+    # bound inside the body, formal names re-bound inside the body, a
+    # defined name re-bound around an occurrence (C17 has no 'bound once')
+    defs_b = [
+        ['define-fun', 'h', [['x', 'Int']], 'Int',
+         ['let', [['b', '1']], ['+', 'x', 'b']]],
+        ['define-fun', 'hq', [['x', 'Int']], 'Bool',
+         ['forall', [['a', 'Int']], ['=', 'a', 'x']]],
+        ['define-fun', 'hs', [['x', 'Int']], 'Int',
+         ['+', 'x', ['let', [['x', '2']], ['*', 'x', 'x']]]],
+        ['define-fun', 'k', [], 'Int', '3'],
+    ]
+    for call in (['h', 'b'], ['h', ['+', 'a', 'b']], ['h', 'a'],
+                 ['hq', 'a'], ['hq', ['+', 'b', '1']], ['hs', 'a'],
+                 ['hs', ['+', 'a', 'b']]):
+        add('InlineDefinedFuns', Inst(di + defs_b, call, fi))
+    for t in (['let', [['k', ['+', 'a', '1']]], ['*', 'k', '2']],
+              ['+', 'k', ['let', [['k', 'b']], 'k']],
+              ['exists', [['k', 'Int']], ['=', ['+', 'k', 'a'], '0']]):
+        add('InlineDefinedFuns', Inst(di + defs_b, t, fi, anywhere=True))
     # -- let substitution
     for t in (['let', [['x', ['+', 'a', '1']]], ['*', 'x', 'x']],
               ['let', [['x', ['+', 'a', '1']], ['y', 'b']],
@@ -262,6 +333,18 @@ def instances(maxw):  # noqa: C901
               ['let', [['a2', ['*', 'a', 'a']]], ['let', [['c', 'a2']],
                                                   ['+', 'c', 'a2']]]):
         add('LetSubstitution', Inst(di, t, fi))
+    # capture by an inner binder, re-binding of the substituted name
+    for t in (['let', [['x', ['+', 'b', '1']]],
+               ['let', [['b', '5']], ['+', 'x', 'b']]],
+              ['let', [['x', 'a']], ['let', [['x', 'b']], ['*', 'x', '2']]],
+              ['let', [['x', ['+', 'a', '1']]],
+               ['+', 'x', ['let', [['x', 'b']], 'x']]],
+              ['let', [['x', 'b']],
+               ['exists', [['b', 'Int']], ['=', ['+', 'x', '1'], 'b']]],
+              ['let', [['x', ['+', 'a', '1']], ['y', 'x']],
+               ['+', 'x', 'y']]):
+        add('LetSubstitution', Inst(di + [['declare-const', 'x', 'Int']], t,
+                                    fi + [('x', 'Int')]))
     # -- selector of constructor
     dt = [['declare-datatype', 'T', [['C', ['s1', 'Int'], ['s2', 'Int']],
                                      ['D']]]]
@@ -367,7 +450,8 @@ def main():
             accepted['BVMergeReducedBW'] = accepted.get(
                 'BVMergeReducedBW', 0) + ok
             continue
-        ok = check_instance(rec, mname, MUTATORS[mname](), inst)
+        chk = check_anywhere if inst.anywhere else check_instance
+        ok = chk(rec, mname, MUTATORS[mname](), inst)
         accepted[mname] = accepted.get(mname, 0) + ok
     check_fp_short_sort(rec)
     # vacuity: every listed mutator accepted at least one instance
